@@ -186,8 +186,10 @@ mutual
             .ok (res.exports ++ vis, res.parsed ++ parsed, ((real fs g).toList ++ found), deeper res.shape ++ shapes, st3)
 end
 
-/-- enough fuel for every run that terminates at all: each level of recursion enters a file that is not
-    in progress, and there are at most `entries` of them, three calls per level -/
+/-- enough fuel for every run of a file system whose files name each include once: each level of recursion enters a
+    file that is not in progress (at most `entries` of them, three calls per level) and walking the includes of a file
+    costs one unit per include.  (A file that includes the same leaf more often than there are entries can exhaust
+    it - `C20L.fsTen` - and is then reported as `.cyclic`; the theorems are about runs that succeed.) -/
 def fuelOf (fs : FS) : Nat := 4 * fs.entries.length + 4
 
 /-- `process_main(path)` for each input in command-line order, one shared FileProcessor -/
